@@ -86,14 +86,16 @@ func derivesFromLookup(v ssa.Value, depth int) *ssa.Lookup {
 // identityGuard: the guard compares an entry looked up in a registry with a token that does not come
 // from the registry (parameter, captured variable, receiver field).
 func identityGuard(g flow.Guard) *ssa.Lookup {
-	if !g.Side {
+	if bo, ok := g.Cond.(*ssa.BinOp); ok {
+		// `a == b` taken, or `a != b` not taken
+		if !((bo.Op == token.EQL && g.Side) || (bo.Op == token.NEQ && !g.Side)) {
+			return nil
+		}
+	} else if !g.Side {
 		return nil
 	}
 	switch x := g.Cond.(type) {
 	case *ssa.BinOp:
-		if x.Op != token.EQL {
-			return nil
-		}
 		lx, ly := derivesFromLookup(x.X, 0), derivesFromLookup(x.Y, 0)
 		if lx != nil && ly == nil && !flow.IsNilConst(x.Y) {
 			if _, isConst := x.Y.(*ssa.Const); !isConst {
@@ -208,6 +210,7 @@ func calleeInProxy(c *Ctx, call ssa.CallInstruction) *ssa.Function {
 func c08(c *Ctx) (*report.Result, error) {
 	res := newResult("C08")
 	res.RuleDoc["O8.1"] = "cleanup removes only its own entry: every call made by a stream incarnation's cleanup (deferred calls and post-run statements of the four Run functions and of ensureStream's goroutine) that reaches a delete on a per-shard registry reaches only deletes guarded by a comparison of the stored entry with the incarnation's own identity, inside the critical section of the lookup"
+	res.RuleDoc["O8.5"] = "identity tokens are fresh per registration: the time RegisterShard hands back is time.Now() of that very call and is what the stored entry carries, on every path (two incarnations can never share a token)"
 	res.RuleDoc["O8.2"] = "sends on a closable channel are recover-guarded: every send on a chan RoutedMessage (the only registered channel type its owner closes) lies in a function with a deferred recover()"
 	res.RuleDoc["O8.3"] = "successor evicts before it registers: the receiver terminates its predecessor before registering its own channel/cancel/receiver; the sender registers its delivery channel before announcing ownership"
 	res.RuleDoc["O8.4"] = "every registration has a cleanup on all exits: each Set*/Register* call of a Run function is followed by a deferred removal before anything can return"
@@ -362,6 +365,7 @@ func c08(c *Ctx) (*report.Result, error) {
 	res.Analysed["eviction_class_deletes"] = ev
 	res.Analysed["registry_deletes"] = len(dels)
 
+	checkFreshTokens(c, res)
 	checkClosableSends(c, res)
 	checkRegistrationOrder(c, res)
 	checkRegistrationCleanup(c, res)
@@ -579,5 +583,74 @@ func checkRegistrationCleanup(c *Ctx, res *report.Result) {
 			r := flow.FindPath(flow.After(rg), func(x ssa.Instruction) bool { return flow.IsReturn(x) || flow.IsPanic(x) }, func(x ssa.Instruction) bool { return x == ssa.Instruction(def) }, nil)
 			res.Check(!r.Found, rule, construct, instrPos(c.Prog, rg), "the defer is registered before any exit", "an exit is reachable after the registration before the cleanup is deferred")
 		}
+	}
+}
+
+// checkFreshTokens: the registration time that UnregisterShard later compares is unique per call.
+func checkFreshTokens(c *Ctx, res *report.Result) {
+	rule := "O8.5"
+	f := resolve(c, res, rule, anchor{"proxy", "*shardManagerImpl", "addLocalShard"})
+	if f == nil {
+		return
+	}
+	var now *ssa.Call
+	for _, call := range flow.Calls(f) {
+		if flow.IsCallTo(call.Common(), "time", "", "Now") {
+			now, _ = call.(*ssa.Call)
+		}
+	}
+	if !res.Check(now != nil, rule, "addLocalShard: takes a fresh time stamp", fnPos(c.Prog, f), "time.Now()", "the registration is not stamped with the current time") {
+		return
+	}
+	// every return hands back that stamp
+	okRet := true
+	for _, b := range f.Blocks {
+		if b == f.Recover {
+			continue
+		}
+		for _, ins := range b.Instrs {
+			if ret, ok := ins.(*ssa.Return); ok {
+				if flow.Ret(ret)[0] != ssa.Value(now) {
+					okRet = false
+				}
+			}
+		}
+	}
+	res.Check(okRet, rule, "addLocalShard: every return hands back this call's own time stamp", fnPos(c.Prog, f), "return now", "a registration can hand back a time stamp that is not its own (e.g. the existing entry's): the old and the new incarnation then share one identity and the old one's UnregisterShard removes the new registration")
+	// the stored entry carries it, on every path
+	var upd *ssa.MapUpdate
+	for _, b := range f.Blocks {
+		for _, ins := range b.Instrs {
+			if mu, ok := ins.(*ssa.MapUpdate); ok {
+				if _, fld, okf := flow.FieldLoadOf(mu.Map); okf && fld == "localShards" {
+					upd = mu
+				}
+			}
+		}
+	}
+	okStore := false
+	if upd != nil {
+		if v := flow.StructValueField(upd.Value, "Created", 0); v == ssa.Value(now) {
+			okStore = true
+		}
+		r := flow.FindPath(flow.Point{Block: f.Blocks[0]}, flow.IsReturn, func(x ssa.Instruction) bool { return x == ssa.Instruction(upd) }, nil)
+		if r.Found {
+			okStore = false
+		}
+	}
+	res.Check(okStore, rule, "addLocalShard: the stored entry carries that time stamp on every path", fnPos(c.Prog, f), "localShards[key] = ShardInfo{Created: now}", "the entry is not (always) re-stamped: UnregisterShard's timestamp guard cannot tell incarnations apart")
+	// RegisterShard returns addLocalShard's result
+	if g := resolve(c, res, rule, anchor{"proxy", "*shardManagerImpl", "RegisterShard"}); g != nil {
+		ok := false
+		for _, b := range g.Blocks {
+			for _, ins := range b.Instrs {
+				if ret, isR := ins.(*ssa.Return); isR {
+					if call, isC := flow.Ret(ret)[0].(*ssa.Call); isC && flow.IsCallTo(&call.Call, proxyPkg, "shardManagerImpl", "addLocalShard") {
+						ok = true
+					}
+				}
+			}
+		}
+		res.Check(ok, rule, "RegisterShard returns the stamp of the entry it stored", fnPos(c.Prog, g), "ok", "the caller's token is not the stored entry's time stamp")
 	}
 }
